@@ -69,9 +69,7 @@ def afterExp : Str → Str
 def decFragment (s : Str) : Bool :=
   let t := dropUnderscores (strip s)
   let t := match t with | '+' :: r => r | '-' :: r => r | r => r
-  (match t with
-   | c :: _ => !(lowerC c == 'i' || lowerC c == 'n' || lowerC c == 's')
-   | [] => true) && (afterExp t).length ≤ 3
+  (afterExp t).length ≤ 3
 
 def tokShort (t : Option NumTok) : Bool :=
   match t with
